@@ -300,13 +300,13 @@ pub fn run_client_view(sim: &Sim, _idx: u64) {
             }
         }
         let mut keys: Vec<(&str, bool)> = vec![];
-        for e in plan.req_md.iter().filter(|e| !e.reserved) {
+        for e in plan.req_md.iter().filter(|e| e.expected()) {
             if !keys.contains(&(e.key.as_str(), e.bin)) {
                 keys.push((e.key.as_str(), e.bin));
             }
         }
         for (key, bin) in keys {
-            let want: Vec<&Vec<u8>> = plan.req_md.iter().filter(|e| !e.reserved && e.key == key).map(|e| &e.val).collect();
+            let want: Vec<&Vec<u8>> = plan.req_md.iter().filter(|e| e.expected() && e.key == key).map(|e| &e.val).collect();
             let have: Vec<Vec<u8>> = rec.headers.get_all(key).iter().map(|v| if bin { indep::b64_decode(v.as_bytes()).unwrap_or_else(|_| b"<not base64>".to_vec()) } else { v.as_bytes().to_vec() }).collect();
             if have.len() != want.len() || have.iter().zip(want.iter()).any(|(a, b)| a != *b) {
                 sim.violation("C08/metadata-not-preserved-on-wire", format!("{who}: key {key:?}: sent {} values, wire carries {:?}", want.len(), have.iter().map(|v| String::from_utf8_lossy(v).into_owned()).collect::<Vec<_>>()));
@@ -428,7 +428,7 @@ pub fn run_server_view(sim: &Sim, _idx: u64) {
                     (Some(Ok(d)), _) if d == w.details => {}
                     (other, _) => sim.violation("C04/status-roundtrip-details-differ", format!("{who}: handler details {}B, wire {:?}", w.details.len(), other.map(|r| r.map(|d| d.len())))),
                 }
-                for e in w.md.iter().filter(|e| !e.reserved) {
+                for e in w.md.iter().filter(|e| e.expected()) {
                     let have: Vec<Vec<u8>> = status_block.get_all(e.key.as_str()).iter().map(|v| if e.bin { indep::b64_decode(v.as_bytes()).unwrap_or_default() } else { v.as_bytes().to_vec() }).collect();
                     if !have.contains(&e.val) {
                         sim.violation("C08/metadata-not-preserved-on-wire", format!("{who}: status metadata {:?} missing on the wire", e.key));
